@@ -103,6 +103,11 @@ impl GModel {
             if Sched::current_tid().map(|t| t != 0).unwrap_or(false)
                 && self.panic_armed.swap(false, Ordering::SeqCst)
             {
+                // from the moment a stop reason exists the schedule is fair, so that "all the
+                // others stop too" can be judged against a step budget
+                if let Some(s) = Sched::current() {
+                    s.calm_now();
+                }
                 panic!("injected model panic at {:?}", site);
             }
         }
